@@ -270,14 +270,14 @@ func runC01(c *mon.Ctx) {
 		}
 		ns = append(ns, 17, 31, 32, 33, 65)
 	} else {
-		for n := 1; n <= 130; n++ {
+		for n := 1; n <= 40; n++ {
 			ns = append(ns, n)
 		}
-		ns = append(ns, 255, 256, 257, 1023, 1024, 1025, 4097)
+		ns = append(ns, 47, 63, 64, 65, 100, 127, 128, 129, 255, 256, 257, 1023, 1024, 1025, 4097)
 	}
 	hs := []int{1, 2, 3, 8}
 	if !c.Quick() {
-		hs = []int{1, 2, 3, 4, 5, 6, 7, 8, 10}
+		hs = []int{1, 2, 3, 4, 5, 8, 10}
 	}
 	modes := []string{"cold", "warm-smaller", "warm-same", "head-only", "warm-larger"}
 
@@ -310,6 +310,9 @@ func runC01(c *mon.Ctx) {
 				for mi, mode := range modes {
 					if n > 200 && mode != "cold" && mode != "warm-smaller" {
 						continue
+					}
+					if !c.Quick() && n > 40 && n <= 200 && (mi+n+h+rec)%5 >= 3 {
+						continue // thorough tier, larger trees: three of the five cache modes per (n, h, rec)
 					}
 					if c.Quick() && n > 6 && (mi+n+h+rec)%2 == 0 {
 						continue // quick tier: half of the cache modes per (n, h, rec), all of them across the sweep
